@@ -530,6 +530,7 @@ type Lemma struct {
 	Props   []string
 	Uses    []string // names of lemmas to assume (already proved)
 	Induct  string   // induction variable (int, >= 0): proves P(0) and P(n)=>P(n+1)
+	Assumed bool     // stated without proof (listed in the trusted base)
 }
 
 type AtCall struct {
@@ -545,6 +546,7 @@ type AssertAt struct {
 type Contract struct {
 	Pkg      string // package path
 	Func     string // receiver-qualified name
+	Variant  string // behaviour tag: a second contract of the same function under extra preconditions
 	Props    []string
 	Level    string // P or PA
 	Ints     string // int | bv
@@ -560,6 +562,7 @@ type Contract struct {
 	NoSafe   bool // skip safety sweep
 	Pure     bool
 	MayPanic bool
+	Uses     []string // lemmas assumed at entry (each proved separately)
 	Ghost    []string // ghost variables this function may change (with ensures about them)
 	File     string
 	Line     int
@@ -641,9 +644,17 @@ func (cs *ContractSet) parseContractText(pkgPath, file string, lines []string, l
 		rest = strings.TrimSpace(rest)
 		switch kw {
 		case "func":
-			cur = &Contract{Pkg: pkgPath, Func: rest, Level: "P", Ints: "int", Loops: map[int]*LoopSpec{}, File: file, Line: line, Opts: map[string]string{}}
+			variant := ""
+			if i := strings.Index(rest, " @"); i >= 0 {
+				variant = strings.TrimSpace(rest[i+2:])
+				rest = strings.TrimSpace(rest[:i])
+			}
+			cur = &Contract{Pkg: pkgPath, Func: rest, Variant: variant, Level: "P", Ints: "int", Loops: map[int]*LoopSpec{}, File: file, Line: line, Opts: map[string]string{}}
 			curSpec, curLemma = nil, nil
 			key := pkgPath + "." + rest
+			if variant != "" {
+				key += "@" + variant
+			}
 			if _, dup := cs.Funcs[key]; dup {
 				return fmt.Errorf("%s:%d: duplicate contract for %s", file, line, key)
 			}
@@ -694,6 +705,8 @@ func (cs *ContractSet) parseContractText(pkgPath, file string, lines []string, l
 					curLemma.Uses = strings.Fields(strings.ReplaceAll(rest, ",", " "))
 				case "induction:":
 					curLemma.Induct = rest
+				case "assumed":
+					curLemma.Assumed = true
 				default:
 					return fmt.Errorf("%s:%d: unknown lemma attribute %q", file, line, kw)
 				}
@@ -711,6 +724,8 @@ func (cs *ContractSet) parseContractText(pkgPath, file string, lines []string, l
 				cur.Ints = rest
 			case "floats:":
 				cur.Floats = strings.Fields(strings.ReplaceAll(rest, ",", " "))
+			case "uses:":
+				cur.Uses = strings.Fields(strings.ReplaceAll(rest, ",", " "))
 			case "trusted":
 				cur.Trusted = true
 			case "nosafe":
